@@ -139,3 +139,19 @@ func CompileFonts(src string, defaultFont string, names []string, keys [][]strin
 	StubFont, StubFontErr = fc, nil
 	return Compile(src, Options{FontPath: "stub", Optimize: optimize})
 }
+
+// Format2 formats the same text twice with one FontConfig holding two fonts
+// (first under font "f1", then under "f2") and returns the second result.
+func Format2(text string, keys []string, w1 []int, w2 []int, maxWidth, overlap, numLines int) (string, error) {
+	fc := parser.FontConfig{DefaultFontID: "f1", Fonts: map[string]parser.Fonts{}}
+	m1, m2 := map[string]int{}, map[string]int{}
+	for i, k := range keys {
+		m1[k], m2[k] = w1[i], w2[i]
+	}
+	fc.Fonts["f1"] = parser.Fonts{Widths: m1}
+	fc.Fonts["f2"] = parser.Fonts{Widths: m2}
+	if _, err := fc.FormatText(text, maxWidth, overlap, "f1", numLines); err != nil {
+		return "", err
+	}
+	return fc.FormatText(text, maxWidth, overlap, "f2", numLines)
+}
